@@ -104,5 +104,31 @@ theorem innerProduct_congr (a a' b b' : Tab) (r r' : Option Nat)
       congr 1
       omega
 
+/-- **the value is invariant under applying one gate list to both states** (Clifford covariance of the fidelity) -/
+theorem innerProduct_circuit_invariant (a b : Tab) (c : List Gate) (hc : ∀ g, g ∈ c → g.WF a.n) (hn : b.n = a.n)
+    (ga : (STab.ofTab a).Good) (gb : (STab.ofTab b).Good) (r r' : Option Nat)
+    (h : STab.innerProduct a b = .ok r) (h' : STab.innerProduct (a.runCircuit c) (b.runCircuit c) = .ok r') : r = r' := by
+  obtain ⟨iA, gA'⟩ := ofTab_runCircuit_image a.n c hc a rfl ga
+  obtain ⟨iB, gB'⟩ := ofTab_runCircuit_image a.n c hc b hn gb
+  have na' : (a.runCircuit c).n = a.n := iA.nT'
+  cases hr : r with
+  | none =>
+    have ho := (innerProduct_none_iff_full a b r ga gb h).1 hr
+    exact ((innerProduct_none_iff_full _ _ r' gA' gB' h').2 ((orth_image_iff iA iB).1 ho)).symm
+  | some e =>
+    cases hr' : r' with
+    | none =>
+      have ho := (innerProduct_none_iff_full _ _ r' gA' gB' h').1 hr'
+      have := (innerProduct_none_iff_full a b r ga gb h).2 ((orth_image_iff iA iB).2 ho)
+      rw [this] at hr; cases hr
+    | some e' =>
+      obtain ⟨l1, _, d1, _⟩ := innerProduct_some_full a b r ga gb h e hr
+      obtain ⟨l2, _, d2, _⟩ := innerProduct_some_full _ _ r' gA' gB' h' e' hr'
+      have d1' := (overlapDim_image_iff iA iB _).1 d1
+      have := overlapDim_unique _ _ gA' (iA.nT'.trans iB.nT'.symm) _ _ d1' d2
+      rw [na'] at this l2
+      congr 1
+      omega
+
 end STab
 end Graphiq
